@@ -163,6 +163,18 @@ impl Family for ScaleCodecFamily {
     }
 
     fn enumerated(&self, thorough: bool) -> Vec<Vec<String>> {
+        if !thorough {
+            let mib = 1usize << 20;
+            // ordered for a 4-way split: the two expensive cases (first and fourth) in different shards
+            return vec![
+                big_region_encoder(3 * mib, 17, 10000, 600000, 0, "c"),
+                streaming_encoder(60, 21000, "c", "drain_all", 0),
+                split_decoder(mib + 70000, &[70000, 64, 65, 300000], "c"),
+                many_pieces(1100, "b", 300, true),
+                many_pieces(1030, "a", 66, false),
+                many_pieces(1100, "b", 300, false),
+            ];
+        }
         let mib = 1usize << 20;
         let mut cases: Vec<Vec<String>> = Vec::new();
         // headers at in-slice offsets >= 2^20 (the 17th sub-chunk header sits at ~1 088 400)
